@@ -257,7 +257,7 @@ def analyse(script, trace):
     outcome = None
     connected_once = False
     waiting = None         # position of the outstation's last confirm wait that has not been resolved
-    replaced = []          # positions at which the master established a NEW connection during such a wait
+    reconnects = []        # positions at which the master established a NEW connection
 
     for pos, l in enumerate(trace):
         t = l.split()
@@ -353,8 +353,8 @@ def analyse(script, trace):
             if t[1] == "connected":
                 if connected_once:
                     stats["reconnects"] += 1
+                    reconnects.append(pos)
                     if waiting is not None:
-                        replaced.append(pos)
                         stats["reconnect_in_confirm_wait"] += 1
                         waiting = None
                 connected_once = True
@@ -428,10 +428,11 @@ def analyse(script, trace):
                 fail("fabricated|invented", "handler delivery `%s` is not %s, nor a value of any point" % (raw, where))
 
     def circumstance(e, until):
-        """known finding F18 needs this circumstance: a response was awaiting its confirm when the master
-        established a new connection, while the event was in the buffer"""
-        if any(e.mpos < r and (until is None or r < until) for r in replaced):
-            return "|reconnect-during-confirm-wait"
+        """the open finding F18 (a new TCP connection replaces the session while a response carrying
+        events awaits its confirm: the events stay in the written state) needs the master to have
+        established a new connection while the event was in the buffer; the signature records it"""
+        if any(e.mpos < r and (until is None or r < until) for r in reconnects):
+            return "|reconnect-while-buffered"
         return ""
 
     cleared_at = {}
